@@ -6,7 +6,7 @@ def main():
     rows, drows, n, missed = [], [], 0, 0
     for d in sorted(glob.glob(os.path.join(V, "seeded", "C*", ""))):
         name = d.rstrip("/").split("/")[-1]
-        m = json.load(open(d + "meta.json")); det = m.get("detection", {}); n += 1
+        m = json.load(open(d + "meta.json")); det = {p: v for p, v in m.get("detection", {}).items() if v.get("rc") == 1}; n += 1
         sigs = []
         for p, v in det.items():
             for l in v["violations"][:2]:
